@@ -1442,8 +1442,11 @@ def run_c19(spec):
         key = (spec.get("seed", 0), cfg["scenario"])
         n = _REF_STEPS.get(key)
         if n is None:
-            ref_ch = Choices(seed=derive_seed(spec.get("seed", 0), "C19-reference", cfg["scenario"]), record=False)
-            ref, h = execute_world(C19Reference, dict(spec, close_k=None), ref_ch, cfg, ops)
+            ref_seed = derive_seed(spec.get("seed", 0), "C19-reference", cfg["scenario"])
+            ref_ch = Choices(seed=ref_seed, record=False)
+            # (everything the reference execution draws - also through the random / urandom seams - is a function of
+            # the scenario, not of the run that happens to measure it first in this process)
+            ref, h = execute_world(C19Reference, dict(spec, close_k=None, seed_int=ref_seed & 0xFFFFFFFF), ref_ch, cfg, ops)
             n = getattr(ref, "ref_steps", None)
             if h or n is None:
                 return {"verdict": "harness_error", "detail": "reference run failed: %r" % (h,)}
@@ -1464,8 +1467,9 @@ def c19_reference_steps(spec):
     spec = dict(spec, run=0)
     spec["seed_int"] = derive_seed(spec.get("seed", 0), spec["property"], 0) & 0xFFFFFFFF
     ch, cfg, ops = build_choices(spec, gen_c19)
-    ref, h = execute_world(C19Reference, dict(spec, close_k=None),
-                           Choices(seed=derive_seed(spec.get("seed", 0), "C19-reference", cfg["scenario"]), record=False), cfg, ops)
+    ref_seed = derive_seed(spec.get("seed", 0), "C19-reference", cfg["scenario"])
+    ref, h = execute_world(C19Reference, dict(spec, close_k=None, seed_int=ref_seed & 0xFFFFFFFF),
+                           Choices(seed=ref_seed, record=False), cfg, ops)
     return getattr(ref, "ref_steps", None)
 
 
